@@ -27,7 +27,8 @@ pub const SEP: &[u8] = b"\n";
 /// The shortest path from which `read_file_path_ts` can extract a period part (`prefix.period`): the open
 /// kernels do not look at the name beyond that, and every path-parsing loop is bounded by its length
 /// (naming itself is the subject of the C11 harnesses).
-pub const P0: &str = "a.t";
+// a well-formed member name `prefix.period.counter.id.ext`: the period is read back from the 4th part from the end
+pub const P0: &str = "a.t.0.0.x";
 
 /// Fill slot 0 with `n <= max <= 2` symbolic bytes, `synced <= written` symbolic.
 #[cfg(kani)]
@@ -323,7 +324,9 @@ fn reuse<const KIND: u8, const WRITE: bool>(twin: bool) -> (bool, usize, u8, boo
 
 #[cfg(kani)]
 #[kani::proof]
-#[kani::unwind(6)]
+#[kani::unwind(12)]
+#[kani::stub(core::slice::memchr::memchr, crate::hfs::stub_memchr)]
+#[kani::stub(core::slice::memchr::memrchr, crate::hfs::stub_memrchr)]
 pub fn c10_q_open_reuse() {
     let (opened, old_n, _, _) = reuse::<K_ERR, false>(false);
     kani::cover!(opened && old_n == 2, "reused a non-empty file");
@@ -333,7 +336,9 @@ pub fn c10_q_open_reuse() {
 /// Mutant twin: claims a reused file is clean - must FAIL.
 #[cfg(kani)]
 #[kani::proof]
-#[kani::unwind(6)]
+#[kani::unwind(12)]
+#[kani::stub(core::slice::memchr::memchr, crate::hfs::stub_memchr)]
+#[kani::stub(core::slice::memchr::memrchr, crate::hfs::stub_memrchr)]
 pub fn c10_w_open_reuse_clean() {
     let (opened, _, _, _) = reuse::<K_ERR, false>(true);
     kani::cover!(opened, "reused");
@@ -342,7 +347,9 @@ pub fn c10_w_open_reuse_clean() {
 /// (N1): exclusive create + directory entry sync.
 #[cfg(kani)]
 #[kani::proof]
-#[kani::unwind(6)]
+#[kani::unwind(12)]
+#[kani::stub(core::slice::memchr::memchr, crate::hfs::stub_memchr)]
+#[kani::stub(core::slice::memchr::memrchr, crate::hfs::stub_memrchr)]
 pub fn c10_q_open_create() {
     reset();
     st().names[0] = P0;
